@@ -851,6 +851,51 @@ def run(ctx):
                     t["exp"] = c["exp"]
                 recs.append(t)
                 ctx.count(1, key=("venn-far", json.dumps(c["cols"]), edge, ch))
+        # dense bins: the count tables of the box scaled so that one sorter has more than 127 (more than 255) spikes in one bin
+        # (coarse bins, high firing rates).  The peeling is homogeneous: k times the table gives k times the regions.  Tables
+        # whose largest count stays below 190 are validated by TLC like the others (its recursive peeling is limited to about 200
+        # levels); the larger ones are judged here with the property's own clause (every spike of every sorter in exactly one
+        # region) and with k times TLC's expectation.
+        for j, c in enumerate(rnd.sample(cases, min(len(cases), 8 if ctx.quick else 120))):
+            top = max(max(col) for col in c["cols"])
+            if top == 0:
+                continue
+            k = (rnd.randint(128, 189) // top) if j % 2 == 0 else rnd.choice([256, 300, 1000]) // top + 1
+            cols = [[v * k for v in col] for col in c["cols"]]
+            binsize, chbin = rnd.choice([3000, 900]), 4
+            sdt, cdt = rnd.choice(sdts), rnd.choice(cdts)
+            trains = venn_trains(cols, rnd, binsize, chbin, 2, rnd.choice([0, 2]), 0, sdt, cdt)
+            if any(t[0].size == 0 for t in trains):
+                continue
+            for ch in rnd.sample([None, binsize, 2 * binsize, binsize + 1], 2):
+                t = venn_call(trains, binsize, chbin, 2 * chbin, ch)
+                sc_ = {"kind": "venn", "cols": cols, "binsize": binsize, "chbin": chbin, "chunk": ch, "nch": 2 * chbin, "sdt": sdt,
+                       "cdt": cdt, "trains": [[a.tolist(), b.tolist()] for a, b in trains]}
+                t.update(chunk=ch, binsize=binsize, scenario=sc_)
+                ctx.count(1, key=("venn-dense", json.dumps(cols), ch))
+                if t["mutated"]:
+                    venn_reuse(ctx, t, trains, binsize, chbin, 2 * chbin)
+                    continue
+                aligned = ch is None or ch % binsize == 0
+                if top * k < 190:
+                    if aligned:
+                        t["exp"] = [v * k for v in c["exp"]]
+                    recs.append(t)
+                    continue
+                nsrt = len(trains)
+                names = [format(i, f"0{nsrt}b") for i in range(1, 2 ** nsrt)]
+                what = (f"spikes_venn{nsrt} on trains with up to {top * k} spikes of one sorter in a bin (bins of {binsize} samples x "
+                        f"{chbin} channels, chunk_size={ch})")
+                if t["exc"] or len(t["ret"]) != len(names):
+                    ctx.violation("venn:raised", f"{what} raised {t['exc']} / returned no complete dictionary", sc_)
+                    continue
+                per = [sum(v for n_, v in zip(names, t["ret"]) if n_[s_] == "1") for s_ in range(nsrt)]
+                if per != t["N"] or any(v < 0 for v in t["ret"]):
+                    ctx.violation("venn:attribution", f"{what}: spikes attributed per sorter {per}, the trains hold {t['N']} (every spike "
+                                  f"of every sorter belongs to exactly one region)", sc_)
+                elif aligned and t["ret"] != [v * k for v in c["exp"]]:
+                    ctx.violation("venn:attribution", f"{what}: regions {t['ret']}, {k} times the expectation of spec/lib/Counting.tla for "
+                                  f"the table divided by {k} is {[v * k for v in c['exp']]}", sc_)
     # spike trains as sorters produce them: sampling rates as the meta files give them (floats, so that the default chunk size is a
     # float), default bin size derived from the rate, other element types, and the plain call that leaves every option to its default
     nreal = 4 if ctx.quick else 40
